@@ -170,15 +170,15 @@ func plans(c *core.Ctx) []plan {
 		{name: "goproto.proto.test.OpenLazy", wireN: 2, small: true, d1N: 1, depth: 2},
 		{name: "opaque.goproto.proto.testeditions.TestAllTypes", wireN: core.Pick(c, 1, 2), small: true, d1N: 1, depth: core.Pick(c, 1, 2)},
 		{name: "hybrid.goproto.proto.testeditions.TestAllTypes", wireN: core.Pick(c, 1, 2), small: true, d1N: 1, depth: 1},
-		{name: "opaque.goproto.proto.testeditions.TestRequiredLazy", wireN: n3, wireAll: true, d1N: core.Pick(c, 1, 2), depth: 2},
-		{name: "hybrid.goproto.proto.testeditions.TestRequiredLazy", wireN: 2, wireAll: true, d1N: 1, depth: 2},
+		{name: "opaque.goproto.proto.testeditions.TestRequiredLazy", wireN: 3, wireAll: true, d1N: core.Pick(c, 1, 2), depth: 2},
+		{name: "hybrid.goproto.proto.testeditions.TestRequiredLazy", wireN: 3, wireAll: true, d1N: 1, depth: 2},
 		{name: "lazy_normalized_wire_test.FTop", wireN: n3, wireAll: true, d1N: core.Pick(c, 1, 2), depth: 2},
 		{name: "lazy_extension_test.Holder", wireN: 2, d1N: 1, depth: 2},
 	}
 }
 
 func run(c *core.Ctx) {
-	c.Rule = "for every sequence of <=n wire records of each lazy-capable type (valid / empty / invalid-inside / wrong-wire-type / non-minimal / repeated contiguous and non-contiguous / out-of-order / interleaved with unknown records): a twin decoded lazily and a twin decoded with NoLazyDecoding must give the same Unmarshal verdict (with and without AllowPartial); then every history of <=D operations from the access alphabet (Get/Has/Clear/Mutable/Set on lazy and plain message fields, scalar Set, Size+Marshal, deterministic Marshal, Clone, Merge into/from, CheckInitialized, strict Marshal, protojson, prototext, Range, Unmarshal-Merge) is applied to both twins in lock-step and every observation, proto.Equal(lazy,eager) and the snapshots must agree after every step (all inputs at depth 1, inputs of <=d1N records at depth D). A state is (input, history); every transition executes the real code on both twins"
+	c.Rule = "for every sequence of <=n wire records of each lazy-capable type (valid / empty / invalid-inside / wrong-wire-type / non-minimal / repeated contiguous and non-contiguous / out-of-order / interleaved with unknown records): a twin decoded lazily and a twin decoded with NoLazyDecoding must give the same Unmarshal verdict (with and without AllowPartial) and, when the strict decode succeeds, the same content; then every history of <=D operations from the access alphabet (Get/Has/Clear/Mutable/Set on lazy and plain message fields, scalar Set, Size+Marshal, deterministic Marshal, Clone, Merge into/from, CheckInitialized, strict Marshal, protojson, prototext, Range, Unmarshal-Merge) is applied to both twins in lock-step and every observation, proto.Equal(lazy,eager) and the snapshots must agree after every step (all inputs at depth 1, inputs of <=d1N records at depth D). A state is (input, history); every transition executes the real code on both twins"
 	c.Exhaustive = true
 	var planOut []map[string]any
 	for _, p := range plans(c) {
@@ -214,10 +214,22 @@ func run(c *core.Ctx) {
 				c.Violation(fmt.Sprintf("verdict-differs lazy=%v eager=%v type=%s input=%s", e1 == nil, e2 == nil, p.name, name), fmt.Sprintf("%x", in))
 				return
 			}
-			_, s1 := f.Unmarshal(in, proto.UnmarshalOptions{})
-			_, s2 := f.Unmarshal(in, proto.UnmarshalOptions{NoLazyDecoding: true})
+			sl, s1 := f.Unmarshal(in, proto.UnmarshalOptions{})
+			se, s2 := f.Unmarshal(in, proto.UnmarshalOptions{NoLazyDecoding: true})
 			if (s1 == nil) != (s2 == nil) {
 				c.Violation(fmt.Sprintf("strict-verdict-differs lazy=%v eager=%v type=%s input=%s", s1 == nil, s2 == nil, p.name, name), fmt.Sprintf("%x", in))
+			} else if s1 == nil {
+				// the strict decode takes other branches of the lazy decoder than the
+				// AllowPartial one (required-field verdicts of the validator): same content too
+				c.Guard(func() string { return "strict twins type=" + p.name + " input=" + name }, func() {
+					bl, _ := proto.MarshalOptions{AllowPartial: true, Deterministic: true}.Marshal(sl.Interface())
+					be, _ := proto.MarshalOptions{AllowPartial: true, Deterministic: true}.Marshal(se.Interface())
+					rl, err := f.Unmarshal(bl, proto.UnmarshalOptions{AllowPartial: true, NoLazyDecoding: true})
+					re, err2 := f.Unmarshal(be, proto.UnmarshalOptions{AllowPartial: true, NoLazyDecoding: true})
+					if err != nil || err2 != nil || univ.Snapshot(rl) != univ.Snapshot(re) || univ.Snapshot(sl) != univ.Snapshot(se) || !proto.Equal(sl.Interface(), se.Interface()) {
+						c.Violation(fmt.Sprintf("strict decode: lazy and eager twins differ in content type=%s input=%s", p.name, name), map[string]any{"lazy": univ.Snapshot(sl), "eager": univ.Snapshot(se), "lazy_bytes": fmt.Sprintf("%x", bl), "eager_bytes": fmt.Sprintf("%x", be)})
+					}
+				})
 			}
 			if e1 != nil {
 				c.Outcome("rejected")
